@@ -467,7 +467,7 @@ def selftest(ctx, vh, hists, cases):
     core.write_ndjson(tp, rows)
     r = core.run_tlc(os.path.join(d, "v"), "TraceHttpEdit", "TraceHttpEdit.cfg", files=[(tp, "trace.ndjson")], timeout=900)
     got = {v["l"] - 1: set(v["bad"]) for v in r.values if isinstance(v, dict) and "bad" in v}
-    want = {k1: "X04.Accepts", k2: "X04.Saved", k3: "X04.Response"}
+    want = {k1: "X04.Accepts", k2: "X04.Saved", k3: "X04.Effect"}
     for k, p in want.items():
         if p not in got.get(k, set()):
             raise core.Infra("self-test: corrupted field at line %d was not rejected with %s (got %s)" % (k, p, got.get(k)))
